@@ -665,13 +665,17 @@ class ExpressionValue(Value):
             right = self.right.int
 
             if self.operation == "+":
-                self.value = NumericValue("{}".format(left + right), mode=mode)
+                result = left + right
             if self.operation == "-":
-                self.value = NumericValue("{}".format(left - right), mode=mode)
+                result = left - right
             if self.operation == "*":
-                self.value = NumericValue("{}".format(int(left * right)), mode=mode)
+                result = int(left * right)
             if self.operation == "/":
-                self.value = NumericValue("{}".format(int(left / right)), mode=mode)
+                result = int(left / right)
+            if result > 255 and mode == ExplicitAddressingMode.DIRECT:
+                # two direct page values can combine to one that is not
+                mode = ExplicitAddressingMode.EXTENDED
+            self.value = NumericValue("{}".format(result), mode=mode)
             return self.value
 
         if self.left.is_address() or self.right.is_address():
